@@ -67,8 +67,39 @@ EncodeJSONOK(e) ==
 \* MODE=dispatch (C07): the acceptance deviations that belong to C04 (D9, D10, D11) are tolerated silently,
 \* what remains is the dispatch: chosen implementation, unregistered => error, reported profile
 AllTol == {"D9", "D10", "D11"}
+\* C03: sign -> decode -> verify binds exactly the validated claims (and C10 for the signed payload)
+SignRTOK(e) ==
+  LET o == e.pre IN
+  /\ ~e.panicked
+  /\ (Valid(o) =>
+        /\ e.signOK
+        /\ e.ti.wf /\ e.ti.tag = 18 /\ e.ti.arrLen = 4 /\ e.ti.trail = 0     \* a tagged COSE_Sign1
+        /\ e.ti.protOnlyAlg /\ e.ti.alg = e.alg /\ e.ti.unprotEmpty         \* protected header = the signer's algorithm, nothing else
+        /\ e.payloadEq                                                       \* payload = the validated encoding, byte for byte
+        /\ WireFormatOKx(o, e.ptok, ExtraKeys(o))
+        /\ e.verSelf                                                         \* verifies on the signing Evidence itself
+        /\ e.decOK /\ e.decObj = o /\ e.getEq /\ e.bound                     \* decoding returns the same claims, claim for claim
+        /\ e.verDec /\ ~e.verWrong)
+  /\ (~Valid(o) /\ e.validated => ~e.signOK)
+\* C08: a validating entry point fails whenever validation fails - emitting / attaching nothing - and
+\* otherwise behaves exactly like its non-validating sibling
+BuildGates == {"SetClaims", "EncodeCBOR", "EncodeJSON", "Sign"}
+GatesOK(e) ==
+  LET o == e.pre IN
+  /\ ~e.panicked /\ e.post = o
+  /\ e.vret.ok = Valid(o)
+  /\ \A g \in DOMAIN e.gates : LET r == e.gates[g] IN
+        IF g \in BuildGates
+        THEN /\ (~Valid(o) => ~r.ok /\ r.none)
+             /\ (Valid(o) /\ r.sibOK => r.ok /\ r.same)
+        ELSE \* decode gates, fed with what the sibling encoder / signer produced
+             /\ (r.ok => r.sibOK /\ Valid(r.sibObj) /\ r.obj = r.sibObj /\ r.same)
+             /\ (r.sibOK /\ Valid(r.sibObj) => r.ok)
+             /\ (~r.ok => r.none)
 MatchT(tol, e) ==
-  CASE e.op = "DecodeCBOR" -> DecodeCBOROK(IF Mode = "dispatch" THEN AllTol ELSE tol, e)
+  CASE e.op = "SignRT" -> SignRTOK(e)
+    [] e.op = "Gates" -> GatesOK(e)
+    [] e.op = "DecodeCBOR" -> DecodeCBOROK(IF Mode = "dispatch" THEN AllTol ELSE tol, e)
     [] e.op = "EncodeCBOR" -> EncodeCBOROK(e)
     [] e.op = "EncodeJSON" -> EncodeJSONOK(e)
     [] OTHER -> FALSE
